@@ -320,6 +320,15 @@ func (p *Projector) abstract(m pgw.Msg) M {
 		}
 		r["rawdig"] = pgw.Dig(all)
 	case 'E', 'N':
+		// which parts of a source location are present: it is set (and sent) as a whole
+		nsrc := 0
+		for _, f := range []string{"file", "line", "fn"} {
+			if _, has := r[f]; has {
+				nsrc++
+			}
+		}
+		r["src"] = []string{"none", "part", "part", "all"}[nsrc]
+		_, r["hasmsg"] = r["msg"]
 		for _, f := range []string{"sev", "code", "msg", "hint", "detail", "cons", "file", "line", "fn"} {
 			if _, has := r[f]; !has {
 				r[f] = ""
